@@ -1,11 +1,11 @@
 #!/bin/bash
 # run_all.sh [tier]: every registered check once, in order; regenerates evidence/
 tier=${1:-quick}
-cd /verif
+cd "$(dirname "$(readlink -f "$0")")/.."
 fail=0
 for p in C01 C02 C03 C04 C05 C06 C07 C08 C09 C10 C11 C12 C13 C14 C15 C16 C17 C18 C19 C20; do
-  s=$(date +%s); bin/check $p --tier $tier > /tmp/runall_$p.out 2>&1; rc=$?
-  echo "$p exit=$rc $(( $(date +%s) - s ))s known=$(grep -c KNOWN-FINDING /tmp/runall_$p.out) viol=$(grep -c VIOLATION /tmp/runall_$p.out) $(grep -m1 -E 'TOOL-ERROR|Traceback' /tmp/runall_$p.out | cut -c1-160)"
+  s=$(date +%s); bin/check $p --tier $tier > ${TMPDIR:-/tmp}/runall_$$_$p.out 2>&1; rc=$?
+  echo "$p exit=$rc $(( $(date +%s) - s ))s known=$(grep -c KNOWN-FINDING ${TMPDIR:-/tmp}/runall_$$_$p.out) viol=$(grep -c VIOLATION ${TMPDIR:-/tmp}/runall_$$_$p.out) $(grep -m1 -E 'TOOL-ERROR|Traceback' ${TMPDIR:-/tmp}/runall_$$_$p.out | cut -c1-160)"
   [ $rc -ne 0 ] && fail=1
 done
 exit $fail
